@@ -5,10 +5,6 @@ open Engine
 open SSTable
 
 let b01 b = if b then 1 else 0
-let val_str v = match v with None -> "~" | Some b -> render b
-let entry_str (e : sentry) = Printf.sprintf "%s %s %s" (render e.sk) (n_to_string e.sseq) (val_str e.sval)
-
-let crc_hex (l : coq_N list) = Printf.sprintf "%08x" (int_of_n (Bytes.crc32 l))
 let blen l = Stdlib.List.length l
 
 let xxh (t : string) : string = n_to_string (Xxhash.xxh64 (bytes_of_token t))
@@ -31,6 +27,18 @@ let crc_string (s : string) : int =
   Stdlib.String.iter (fun ch -> c := t.((!c lxor Char.code ch) land 0xff) lxor (!c lsr 8)) s;
   !c lxor 0xFFFFFFFF
 
+let crc_hex (l : coq_N list) = Printf.sprintf "%08x" (crc_string (string_of_bytes l))
+
+(* Kutil.render with the native CRC: "-" | hex (<= 48 bytes) | #len:crc32 *)
+let render (l : coq_N list) : string =
+  let n = Stdlib.List.length l in
+  if n = 0 then "-"
+  else if n <= 48 then hex_of_raw (string_of_bytes l)
+  else Printf.sprintf "#%d:%08x" n (crc_string (string_of_bytes l))
+
+let val_str v = match v with None -> "~" | Some b -> render b
+let entry_str (e : sentry) = Printf.sprintf "%s %s %s" (render e.sk) (n_to_string e.sseq) (val_str e.sval)
+
 (* ---- the pristine file, computed once per case ---- *)
 type pristine = { parts : SSTFile.fparts; bytes : coq_N list }
 let cache : (string, pristine option) Hashtbl.t = Hashtbl.create 4
@@ -49,9 +57,29 @@ let layout (id : string) (pr : string -> unit) (bloom : bool) (es : sentry list)
   | None -> pr "R err"
   | Some { parts; _ } ->
     let off = ref 0 in
-    Stdlib.List.iteri (fun j (o, b) ->
-        pr (Printf.sprintf "R data%d %d %d %s" j (int_of_n o) (blen b) (crc_hex b));
-        off := int_of_n o + blen b) parts.fp_blocks;
+    (* like the harness: the data regions are found through the index block (every entry whose key
+       is not nil, valid or not), then cut out of the file bytes *)
+    let file = SSTFile.parts_bytes parts in
+    (match Block.new_reader parts.fp_index with
+     | Datatypes.Coq_inr _ -> ()
+     | Datatypes.Coq_inl r ->
+       let it = ref (Block.it_seek_first r Block.it_new) in
+       let j = ref 0 in
+       let continue = ref true in
+       while !continue do
+         match Block.it_entry !it with
+         | None -> continue := false
+         | Some e ->
+           (match SSTFile.parse_locator e.sval with
+            | Some (o, sz) ->
+              let b = Block.slice file o sz in
+              pr (Printf.sprintf "R data%d %d %d %s" !j (int_of_n o) (int_of_n sz) (crc_hex b));
+              off := int_of_n o + int_of_n sz
+            | None -> continue := false);
+           incr j;
+           it := fst (Block.it_next r !it)
+       done);
+    off := Stdlib.List.fold_left (fun a (_, b) -> a + blen b) 0 parts.fp_blocks;
     if parts.fp_filters <> [] then begin
       let fb = SSTFile.filters_bytes parts.fp_filters in
       pr (Printf.sprintf "R filters %d %d %s" !off (blen fb) (crc_hex fb));
@@ -166,7 +194,8 @@ let corrupt (id : string) (pr : string -> unit) (bloom : bool) (es : sentry list
     let nes = Stdlib.List.length es in
     let size = blen p.bytes in
     (match args with
-     | ["at"; off; mode] -> corrupt_one pr p nes probes (int_of_string off) mode
+     | ["at"; off; mode] -> if int_of_string off < size then corrupt_one pr p nes probes (int_of_string off) mode
+     | ["frac"; f; mode] -> corrupt_one pr p nes probes (size * int_of_string f / 10000) mode
      | ["all"; start; stride; modes] ->
        let off = ref (int_of_string start) in
        while !off < size do
